@@ -207,7 +207,7 @@ def ds_random_body(ctx: Ctx, p: dict) -> None:
 
 
 # ---------------------------------------------------------------------------------------------------------------
-IN_VIOLATIONS = ["L:img-unreadable", "R:img-unreadable", "L:nodata-float", "R:nodata-str", "L:mask-size", "R:mask-size",
+IN_VIOLATIONS = ["L:img-unreadable", "R:img-unreadable", "L:nodata-float", "R:nodata-str", "L:nodata-inf", "R:nodata-inf", "L:mask-size", "R:mask-size",
                  "L:classif-size", "R:segm-size", "L:mask-unreadable", "disp:max<min", "disp:one-band-grid", "disp:grid-size",
                  "disp:right-list", "disp:right-grid-with-left-list", "disp:right-grid-inverted", "disp:right-grid-size",
                  "disp:right-grid-one-band", "disp:len3", "disp:len1", "R:img-size", "disp:missing",
@@ -270,6 +270,9 @@ def apply_in(inp, f, v, cls):
         inp[side]["nodata"] = 1.5
     elif what == "nodata-str":
         inp[side]["nodata"] = "zero"
+    elif what == "nodata-inf":
+        # integer or NaN are the documented forms: an infinite no-data value is neither
+        inp[side]["nodata"] = "inf" if side == "left" else "-inf"
     elif what == "mask-size":
         inp[side]["mask"] = f["small"]
     elif what == "classif-size":
